@@ -180,6 +180,8 @@ def check_case(case):
 
         from vk import cli
 
+        cli.use_case(case)
+
         d = tempfile.mkdtemp(prefix="vk02.")
         try:
             k = gen.pick(case, "cli-center", 6)
